@@ -160,7 +160,13 @@ Definition report_one (base : N) (i : input) (ob : observation) : list (N * N * 
   match i_doc i with
   | IDef d _ _ _ _ _ _ =>
       if in_domain i then
-        flag (c_mirrors (urljoin_of i) (fparse_of i) lext (i_strict i) (i_probes i) (i_base i) d ob) base 1 0 ++
+        (let mir := c_mirrors (urljoin_of i) (fparse_of i) lext (i_strict i) (i_probes i) (i_base i) in
+         if kf_dup_device_types d || kf_dup_service_types d then
+           (* known findings D32 / D33: reported as clause 3 exactly when the object model is the mirror of the collapsed
+              description (Spec.collapse); any other deviation stays clause 1 and is not covered by the findings *)
+           if mir d ob then []
+           else if mir (collapse d) ob then [(base, 3, 0)] else [(base, 1, 0)]
+         else flag (mir d ob) base 1 0) ++
         flag (c_strict_refuses (i_strict i) d ob) base 2 0 ++
         guard (kf_dup_device_types d) base 101 ++ guard (kf_dup_service_types d) base 102
       else []
